@@ -3,7 +3,7 @@ package main
 // C09: applying through the safekeeper (signature-checking pool).
 //   c09-unit : one old file (signed vs actual content) at unit scale (1 unit = 32 KiB, block = 2 units) read through
 //              the REAL safekeeper by the two consumers the fresh bowl / rsync applier use: copy until EOF
-//              (io.CopyBuffer, 32 KiB buffer) and block-range copy through io.LimitReader;
+//              (io.CopyBuffer, 32 KiB buffer) and the real wsync.ApplySingle of a block range;
 //   c09-tree : (patch, damage) pairs: plain and optimized patches of generated build pairs applied with the fresh
 //              bowl while the old build - damaged in blocks the patch reuses or not, truncated, extended, files
 //              deleted, empty files filled - is read through the safekeeper.
@@ -24,6 +24,7 @@ import (
 	"github.com/itchio/savior"
 	"github.com/itchio/savior/seeksource"
 	"github.com/itchio/wharf/pwr"
+	"github.com/itchio/wharf/wsync"
 )
 
 // signatureStream returns the bytes of a signature file (.pws) of the build in dir, written by the real differ.
@@ -157,26 +158,14 @@ func cmdC09Unit(args []string) error {
 					var r io.Reader
 					r, rerr = sk.GetReader(0)
 					if rerr == nil {
-						_, rerr = io.CopyBuffer(&outb, r, buf)
+						_, rerr = io.CopyBuffer(struct{ io.Writer }{&outb}, r, buf)
 					}
 				} else {
-					// wsync.ApplySingleFull, fail-fast
-					fileSize := sk.GetSize(0)
-					blockSize := int64(pwr.BlockSize)
-					lastIndex := int64(mode[0] + mode[1] - 1)
-					lastSize := blockSize
-					if blockSize*(lastIndex+1) > fileSize {
-						lastSize = fileSize % blockSize
-					}
-					opSize := int64(mode[1]-1)*blockSize + lastSize
-					var rs io.ReadSeeker
-					rs, rerr = sk.GetReadSeeker(0)
-					if rerr == nil {
-						_, rerr = rs.Seek(blockSize*int64(mode[0]), io.SeekStart)
-					}
-					if rerr == nil {
-						_, rerr = io.CopyBuffer(&outb, io.LimitReader(rs, opSize), buf)
-					}
+					// the REAL applier of a block range (wsync.ApplySingle, fail-fast) reading through the safekeeper
+					// (the output is a plain io.Writer as a bowl's entry writer is: a *bytes.Buffer would make io.CopyBuffer
+					// take its ReaderFrom shortcut and ignore the applier's buffer)
+					rerr = wsync.NewContext(int(pwr.BlockSize)).ApplySingle(struct{ io.Writer }{&outb}, sk, wsync.Operation{
+						Type: wsync.OpBlockRange, FileIndex: 0, BlockIndex: int64(mode[0]), BlockSpan: int64(mode[1])})
 				}
 				sk.Close()
 				line.Result = "ok"
